@@ -119,7 +119,16 @@ pub struct Upload(pub usize);
 impl Upload {
     /// Get the upload value.
     pub fn value(&self, ctx: &Context<'_>) -> std::io::Result<UploadValue> {
-        ctx.query_env.uploads[self.0].try_clone()
+        ctx.query_env
+            .uploads
+            .get(self.0)
+            .ok_or_else(|| {
+                std::io::Error::new(
+                    std::io::ErrorKind::NotFound,
+                    "no file was uploaded for this value",
+                )
+            })?
+            .try_clone()
     }
 }
 
@@ -160,7 +169,12 @@ impl InputType for Upload {
         if let Value::String(s) = &value
             && let Some(filename) = s.strip_prefix(PREFIX)
         {
-            return Ok(Upload(filename.parse::<usize>().unwrap()));
+            // The marker is written by the multipart decoder, but a client can
+            // also send such a string itself.
+            return match filename.parse::<usize>() {
+                Ok(index) => Ok(Upload(index)),
+                Err(_) => Err(InputValueError::expected_type(value)),
+            };
         }
         Err(InputValueError::expected_type(value))
     }
